@@ -703,7 +703,7 @@ impl Property for C04 {
         "C04"
     }
     fn rule(&self) -> String {
-        "enumerated: every .ucg file shipped in the repository and every file of fuzz/corpus, unmodified; generated: token soups over the full vocabulary with arbitrary Unicode characters, statement-shaped soups, 1-3 token mutations (delete/duplicate/swap/replace) of windows of those files, edge-arithmetic programs (zero divisors, i64 extremes, range limits, format placeholder/argument mismatches, casts and functional ops on wrong shapes, includes of empty / blank / malformed / binary / missing data files under every include type), bracket nesting 1..64, functional operations nested in each other's callbacks up to 31 deep, valid generated programs with comments, newlines and CRLF between any two tokens, constraint programs (plain, recursive, mutually recursive and ill-founded definitions applied to values nested up to 14 deep); each input goes through tokenize, parse (with/without comments), type check, translate, format, evaluate (strict / non-strict), convert (8 converters) under catch_unwind in a supervised worker with a deterministic work bound; 1 in 40 also through the real binary (build, fmt, test). Non-trivial: the input parses and has >= 3 tokens; distinct by input text.".into()
+        "enumerated: every .ucg file shipped in the repository and every file of fuzz/corpus, unmodified; generated: token soups over the full vocabulary with arbitrary Unicode characters, statement-shaped soups, 1-3 token mutations (delete/duplicate/swap/replace) of windows of those files, edge-arithmetic programs (zero divisors, i64 extremes, range limits, format placeholder/argument mismatches, casts and functional ops on wrong shapes, includes of empty / blank / malformed / binary / missing data files under every include type), bracket nesting 1..64, functional operations nested in each other's callbacks up to 31 deep, flat chains of 300..6000 binary operators (through the real binary only), valid generated programs with comments, newlines and CRLF between any two tokens, constraint programs (plain, recursive, mutually recursive and ill-founded definitions applied to values nested up to 14 deep); each input goes through tokenize, parse (with/without comments), type check, translate, format, evaluate (strict / non-strict), convert (8 converters) under catch_unwind in a supervised worker with a deterministic work bound; 1 in 40 also through the real binary (build, fmt, test). Non-trivial: the input parses and has >= 3 tokens; distinct by input text.".into()
     }
     fn assumptions(&self) -> Vec<String> {
         vec![
@@ -745,6 +745,14 @@ impl Property for C04 {
         o
     }
     fn run_text(&mut self, text: &str) -> Outcome {
+        if let Some(rest) = text.strip_prefix("CLI-ONLY\n") {
+            let mut o = Outcome::pass(clip(rest));
+            o.key = fnv(rest.as_bytes());
+            o.class("long-operator-chain");
+            o.nontrivial = true;
+            self.cli_sample(rest, &mut o);
+            return o;
+        }
         let mut o = Outcome::pass(clip(text));
         o.key = fnv(text.as_bytes());
         o.class("text-replay");
@@ -757,6 +765,21 @@ impl Property for C04 {
     fn run_tape(&mut self, words: &[u32]) -> Outcome {
         let mut t = Tape::new(words);
         let max_nest = 64;
+        if t.chance(1, 400) {
+            // a flat chain of hundreds to thousands of binary operators: no nesting in the source,
+            // a tree that deep for every recursive pass. The harness's own worker has an ordinary
+            // stack, so these go to the real binary only.
+            let n = *t.pick(&[300usize, 800, 1500, 3000, 6000]);
+            let (op, leaf) = *t.pick(&[("+", "1"), ("-", "1"), ("+", "\"s\""), ("&&", "true"), ("==", "1"), ("*", "1")]);
+            let text = format!("let x = {};\n", vec![leaf; n + 1].join(&format!(" {} ", op)));
+            let mut o = Outcome::pass(clip(&text));
+            o.key = fnv(text.as_bytes());
+            o.portable = Some(format!("CLI-ONLY\n{}", text));
+            o.class("long-operator-chain");
+            o.nontrivial = true;
+            self.cli_sample(&text, &mut o);
+            return o;
+        }
         let (label, text) = match t.weighted(&[3, 3, 5, 5, 2, 3, 3]) {
             5 => ("commented-program", self.gen_commented(&mut t)),
             6 => ("constraint-program", self.gen_constraints(&mut t)),
